@@ -12,7 +12,8 @@ DESIGN_REF = 'DESIGN.md section 4, C18'
 TECHNIQUE = ("model-based property testing: complete enumeration of all DAGs on <= 4 nodes "
              "(quick) / 5 nodes (thorough) x every bypass target x all start/end subsets of "
              "size <= 2 x both keep flags x keep_only subsets, and generated operation programs "
-             "(<= 6 operations) on random DAGs to 12 nodes; oracle = member set and "
+             "(<= 6 operations: surgeries, plain requires(), read-only queries in between) on "
+             "random DAGs to 12 nodes; oracle = member set and "
              "transitive closure / requirement sets computed by a reference model before the "
              "call")
 LEVEL_TEXT = ("exhaustive on the small spaces named by the property, generated histories "
